@@ -284,7 +284,21 @@ func c20Run(env *c20Env, c c20Case, mk func() vsChooser, maxSteps int) c20Case {
 	_ = syncTid
 	base := len(vs.threads)
 	var states []uint32
-	steps, finished := vsDrive(nil, mk(), maxSteps, func(i int, rec vsStepRec) {
+	// stop driving once nothing but blocked wg.Wait polls has happened for a while (a deadlock of the code under test)
+	inner := mk()
+	busyRun := 0
+	choose := func(al []int, all int, last int, lastEv *vsEvent) int {
+		if lastEv != nil && lastEv.Kind == vsKBusy {
+			busyRun++
+		} else if lastEv != nil {
+			busyRun = 0
+		}
+		if busyRun >= 12*len(al)+12 {
+			return -1
+		}
+		return inner(al, all, last, lastEv)
+	}
+	steps, finished := vsDrive(nil, choose, maxSteps, func(i int, rec vsStepRec) {
 		stepNo = i + 1
 		states = append(states, atomic.LoadUint32(&s.state))
 	})
